@@ -112,6 +112,11 @@ PLANS["C02"]["thorough"] = PLANS["C02"]["thorough"] + [
     {"name": "scen-tsan", "kind": "vh_tsan", "engine": "scen", "scale": 0.02, "shards": 2, "timeout": 3000},
     {"name": "scen-miri", "kind": "vh_miri", "engine": "scen", "scale": 0.003, "shards": 8, "timeout": 3300}]
 
+# Miri (tree borrows) over the decoders and codecs with hostile input: the repository itself has no unsafe code, so this
+# watches the dependencies it hands untrusted bytes to (postcard, serde_json, hex, sha2) and the generated asm codec
+PLANS["C06"]["thorough"] = PLANS["C06"]["thorough"] + [{"name": "total-miri", "kind": "vh_miri", "engine": "total", "scale": 0.0004, "shards": 8, "timeout": 3300}]
+PLANS["C13"]["thorough"] = PLANS["C13"]["thorough"] + [{"name": "codec-miri", "kind": "vh_miri", "engine": "codec", "scale": 0.00004, "shards": 8, "timeout": 3300, "args": _PINNED}]
+PLANS["C18"]["thorough"] = PLANS["C18"]["thorough"] + [{"name": "formats-miri", "kind": "vh_miri", "engine": "formats", "scale": 0.0004, "shards": 8, "timeout": 3300}]
 PLANS["C12"]["thorough"] = PLANS["C12"]["thorough"] + [{"name": "vm-memcheck", "kind": "vh_valgrind", "engine": "vm", "scale": 0.3, "shards": 8, "timeout": 3000}]
 PLANS["C19"]["thorough"] = PLANS["C19"]["thorough"] + [{"name": "sign-memcheck", "kind": "vh_valgrind", "engine": "sign", "scale": 0.1, "shards": 8, "timeout": 3000}]
 
